@@ -28,7 +28,7 @@ RULE = ("case = seeded UFO (Latin bases/alternates/ligatures/marks with top/bott
         "glyphs; optional public.openTypeCategories) + user feature file (languagesystems, class "
         "and markClass definitions, named lookups, 0-4 GSUB features with single/alternate/"
         "ligature substitutions, hand-written kern/mark/mkmk/curs blocks with the marker "
-        "none/top/middle/bottom/alone/mis-cased/twice, optional table GDEF) x writer list "
+        "none/top/middle/bottom/alone/mis-cased/twice, hand-written abvm / blwm blocks in Devanagari fonts, optional table GDEF) x writer list "
         "(default | lib-specified | explicit with/without ellipsis; skip/append; harness GSUB "
         "writer last) x UFO library; strata: default ~94 %, plus 2 % each for the listed "
         "mechanisms (user lookup named like a generated lookup; useExtension on a block that the "
